@@ -790,6 +790,17 @@ def sum_unwrap_or_default_int(ex, st, func, args, dest_ty):
     dflt = args[1].t if len(args) > 1 else z3.BitVecVal(0, w)
     return [(st, BV(z3.If(d == 1, p.t, dflt), sg))]
 
+def sum_unwrap_or(ex, st, func, args, dest_ty):
+    """Option::<T>::unwrap_or(default) for any T: the payload, or the default"""
+    o = _target(st, args[0])
+    if not isinstance(o, ObjV) or len(args) < 2: return None
+    d = ex.discr(st, o).t; out = []
+    if ex.feasible(st, d == 1):
+        s2 = st.clone(); s2.pc.append(d == 1); out.append((s2, ex.load(s2, o.oid, ('f', 'Some', 0), 'opaque')))
+    if ex.feasible(st, d == 0):
+        st.pc.append(d == 0); out.append((st, args[1]))
+    return out
+
 def sum_unwrap(ex, st, func, args, dest_ty):
     """Option::unwrap / expect, Result::unwrap / expect: the payload, or a panic path when there is none"""
     v = args[0]
@@ -870,6 +881,7 @@ GENERIC = [
     (r'^Result::<.*>::ok$|^Result::<.*>::err$|^std::result::Result::<.*>::(ok|err)$', sum_result_ok),
     (r'Option::<.*>::is_some$|Option::<.*>::is_none$|Result::<.*>::is_ok$|Result::<.*>::is_err$', sum_is_variant),
     (r'Option::<\w+>::unwrap_or_default$|Option::<\w+>::unwrap_or$', sum_unwrap_or_default_int),
+    (r'^(std::option::)?Option::<.*>::unwrap_or$', sum_unwrap_or),
     (r'Result::<.*>::map_err::<', sum_map_err),
     (r' as PartialEq>::(eq|ne)$', sum_fieldless_eq),
     (r'^<Result<.*> as Try>::branch$|^<std::result::Result<.*> as Try>::branch$', sum_try_branch),
